@@ -354,6 +354,8 @@ type script struct {
 	Respond any `json:"respond"`
 	// HandlerError: the handler returns this error text instead
 	HandlerError string `json:"handler_error"`
+	// RespondRandom: the handler returns a type-directed random value: {"type":"*Name","seed":n,"status":code}
+	RespondRandom map[string]any `json:"respond_random"`
 	// RespondError: the handler returns this value (a generated type implementing error) as its error
 	RespondError any `json:"respond_error"`
 	// Security: scheme → "accept" | "skip" | "reject"
@@ -376,6 +378,7 @@ type obs struct {
 	MwParams      map[string]string `json:"mw_params,omitempty"`
 	SecCalls      []string          `json:"sec_calls,omitempty"`
 	BuildErr      string            `json:"build_err,omitempty"`
+	Responded     string            `json:"responded,omitempty"`
 }
 
 type countingWriter struct {
@@ -396,6 +399,8 @@ type server struct {
 	ts     *httptest.Server
 	client any
 	rt     *recTransport
+	// WriteHeader calls of the last request served through the httptest server
+	lastWriteHeaders int
 }
 
 var servers = map[string]*server{}
@@ -432,6 +437,31 @@ func getServer(pkg, prefix string) (*server, error) {
 				}
 				s.ob.BuildErr = "respond_error value is not an error"
 				return nil, errors.New("not an error")
+			}
+			if rr := s.cur.RespondRandom; rr != nil {
+				tn, _ := rr["type"].(string)
+				t, ok := api.Types[strings.TrimPrefix(tn, "*")]
+				if !ok {
+					s.ob.BuildErr = "unknown type " + tn
+					return nil, errNotImplemented
+				}
+				var seed uint64
+				fmt.Sscan(fmt.Sprint(rr["seed"]), &seed)
+				v := RandomValue(t, &rnd{s: seed}, 3)
+				if st, ok := rr["status"]; ok && t.Kind() == reflect.Struct {
+					if f := v.FieldByName("StatusCode"); f.IsValid() && f.Kind() == reflect.Int {
+						var code int64
+						fmt.Sscan(fmt.Sprint(st), &code)
+						f.SetInt(code)
+					}
+				}
+				s.ob.Responded = Canon(v)
+				if strings.HasPrefix(tn, "*") {
+					p := reflect.New(t)
+					p.Elem().Set(v)
+					return p.Interface(), nil
+				}
+				return v.Interface(), nil
 			}
 			if s.cur.Respond == nil {
 				return nil, errNotImplemented
@@ -505,7 +535,11 @@ func (s *server) ensureClient() error {
 	if s.api.NewClient == nil || s.h == nil {
 		return errors.New("package has no client or no server")
 	}
-	s.ts = httptest.NewServer(s.h)
+	s.ts = httptest.NewServer(http.HandlerFunc(func(w http.ResponseWriter, r *http.Request) {
+		cw := &countingWriter{ResponseWriter: w}
+		defer func() { s.lastWriteHeaders = cw.writeHeaders }()
+		s.h.ServeHTTP(cw, r)
+	}))
 	s.rt = &recTransport{}
 	sec := func(ctx context.Context, scheme, op string) (any, error) {
 		d, ok := s.cur.ClientCreds[scheme]
@@ -589,6 +623,8 @@ type request struct {
 	Op     string `json:"op"`
 	Params any    `json:"params"`
 	Req    any    `json:"req"`
+	// ReqJSON: the request argument is obtained by decoding this JSON text into the argument's type
+	ReqJSON string `json:"req_json"`
 	// batch: many (method, path, raw_path) probes of the router in one request
 	Items [][]string `json:"items"`
 	// encode / decode
@@ -769,6 +805,7 @@ func handle(req *request) (ans map[string]any) {
 		}
 		s.cur = &req.Script
 		s.ob = &obs{}
+		s.lastWriteHeaders = 0
 		*s.rt = recTransport{}
 		m := reflect.ValueOf(s.client).MethodByName(req.Op)
 		if !m.IsValid() {
@@ -790,6 +827,26 @@ func handle(req *request) (ans map[string]any) {
 				if err == nil {
 					given["params"] = Canon(v)
 				}
+			} else if req.ReqJSON != "" {
+				et := at
+				if at.Kind() == reflect.Pointer {
+					et = at.Elem()
+				}
+				nv := reflect.New(et)
+				um := nv.MethodByName("UnmarshalJSON")
+				if !um.IsValid() {
+					ans["error"] = "request type has no UnmarshalJSON: " + at.String()
+					return
+				}
+				if out := um.Call([]reflect.Value{reflect.ValueOf([]byte(req.ReqJSON))}); !out[0].IsNil() {
+					ans["error"] = "cannot decode req_json: " + out[0].Interface().(error).Error()
+					return
+				}
+				v = nv.Elem()
+				if at.Kind() == reflect.Pointer {
+					v = nv
+				}
+				given["req"] = Canon(v)
 			} else {
 				v, err = Build(s.api, at, req.Req)
 				if err == nil {
@@ -820,6 +877,7 @@ func handle(req *request) (ans map[string]any) {
 			}
 		}()
 		ans["client"] = cl
+		ans["write_headers"] = s.lastWriteHeaders
 		ans["wire"] = s.rt
 		ans["server"] = s.ob
 	case "encode", "roundtrip":
